@@ -98,6 +98,9 @@ func coqNode(g *GraphSpec, id int, sub int) string {
 	var dmap []string
 	if n := g.node(id); n != nil && n.Leaf {
 		for _, t := range dsucc {
+			if tn := g.node(t); tn != nil && tn.Atom {
+				continue // the string reaches an atom node unmapped
+			}
 			dmap = append(dmap, lib.CoqPair(lib.CoqN(uint64(t)), lib.CoqN(uint64(id))))
 		}
 	}
